@@ -30,6 +30,7 @@ type Env struct {
 	phiOverride map[*ssa.Phi]Val
 	inLoop bool
 	pkg    *types.Package
+	ghostDepth int
 }
 
 func (r *FnRun) newEnv(cur, old *State) *Env {
@@ -851,6 +852,13 @@ func (env *Env) evalCall(e *Expr) CV {
 			args = append(args, a)
 		}
 		if sf.Uninterp {
+			if len(args) > 0 && len(sf.PTypes) > 0 && sf.PTypes[0] == "iface" {
+				if iv, ok := args[0].V.(IfaceV); ok {
+					if res, ok := env.dispatchGhost(name, sf, iv, args); ok {
+						return res
+					}
+				}
+			}
 			var ts []*Term
 			for _, a := range args {
 				if sv, isSlice := a.V.(SliceV); isSlice {
@@ -863,6 +871,9 @@ func (env *Env) evalCall(e *Expr) CV {
 				for _, l := range ls {
 					ts = append(ts, l.T)
 				}
+			}
+			if sf.ReadsM {
+				ts = append(ts, env.cur.M, env.cur.SB, env.cur.SO)
 			}
 			rt, ok := specTypes[sf.Ret]
 			if !ok {
@@ -985,4 +996,136 @@ func (env *Env) useAxiom(e *Expr) *Term {
 	}
 	r.e.usedAxioms[e.Name] = true
 	return ce.EvalBool(ax.Body)
+}
+
+// dispatchGhost expands a per-type ghost attribute when the dynamic type of the interface value is known
+// (a constant tag, or an if-then-else tree of constant tags).
+func (env *Env) dispatchGhost(name string, sf *SpecFunc, iv IfaceV, args []CV) (CV, bool) {
+	r := env.r
+	tb := env.tb()
+	switch {
+	case iv.Tag.IsConst():
+		ta, t := r.e.attrsForTag(iv.Tag)
+		if ta == nil {
+			return CV{}, false
+		}
+		ad, ok := ta.Attrs[name]
+		if !ok {
+			return CV{}, false
+		}
+		if len(ad.Params) != len(args)-1 {
+			panic(cerr("attribute %s of %s expects %d extra arguments", name, ta.TypeKey, len(ad.Params)))
+		}
+		if env.ghostDepth > 6 {
+			return CV{}, false
+		}
+		ce := &Env{r: r, vars: map[string]CV{}, cur: env.cur, old: env.old, pkg: env.pkg, ghostDepth: env.ghostDepth + 1}
+		if ta.Pkg != "" {
+			if sp := r.e.ssaPkgs[ta.Pkg]; sp != nil {
+				ce.pkg = sp.Pkg
+			}
+		}
+		// receiver
+		if isPointerLike(t) {
+			ce.vars["this"] = CV{V: Scalar{iv.Data}, T: t}
+		} else {
+			ce.vars["this"] = CV{V: r.unbox(iv.Data, t), T: t}
+		}
+		ce.vars["self"] = CV{V: iv, T: specTypes["iface"]}
+		for i, pn := range ad.Params {
+			ce.vars[pn] = args[i+1]
+		}
+		res := ce.Eval(ad.Body)
+		if rt, ok := specTypes[sf.Ret]; ok {
+			if res.Const != nil {
+				res = env.coerceConst(res, rt)
+			} else if !isBool(rt) {
+				if _, isS := res.V.(Scalar); isS {
+					res.T = rt
+				}
+			}
+		}
+		return res, true
+	case iv.Tag.Op == "ite":
+		c := iv.Tag.Args[0]
+		// data may or may not be an ite on the same condition
+		dA, dB := iv.Data, iv.Data
+		if iv.Data.Op == "ite" && iv.Data.Args[0] == c {
+			dA, dB = iv.Data.Args[1], iv.Data.Args[2]
+		}
+		a, okA := env.dispatchGhostOrUF(name, sf, IfaceV{Tag: iv.Tag.Args[1], Data: dA}, args)
+		b, okB := env.dispatchGhostOrUF(name, sf, IfaceV{Tag: iv.Tag.Args[2], Data: dB}, args)
+		if !okA || !okB {
+			return CV{}, false
+		}
+		a, b = env.unify(a, b)
+		return CV{V: r.e.iteVal(c, a.V, b.V), T: a.T}, true
+	}
+	_ = tb
+	return CV{}, false
+}
+
+func (env *Env) dispatchGhostOrUF(name string, sf *SpecFunc, iv IfaceV, args []CV) (CV, bool) {
+	if res, ok := env.dispatchGhost(name, sf, iv, args); ok {
+		return res, true
+	}
+	// fall back to the uninterpreted application on this branch
+	n := append([]CV{{V: iv, T: args[0].T}}, args[1:]...)
+	e := &Expr{Kind: "call", Name: name}
+	_ = e
+	return env.ghostApp(name, sf, n), true
+}
+
+func (env *Env) ghostApp(name string, sf *SpecFunc, args []CV) CV {
+	r := env.r
+	tb := env.tb()
+	var ts []*Term
+	for _, a := range args {
+		if sv, isSlice := a.V.(SliceV); isSlice {
+			ts = append(ts, r.sliceContent(env.cur, sv), sv.Off, sv.Len)
+			continue
+		}
+		var ls []leaf
+		leaves(a.V, "", &ls)
+		for _, l := range ls {
+			ts = append(ts, l.T)
+		}
+	}
+	if sf.ReadsM {
+		ts = append(ts, env.cur.M, env.cur.SB, env.cur.SO)
+	}
+	rt, ok := specTypes[sf.Ret]
+	if !ok {
+		panic(cerr("unknown return type %s of ghost %s", sf.Ret, name))
+	}
+	var s *Sort
+	if isBool(rt) {
+		s = BoolSort
+	} else {
+		w, _, _ := basicInfo(rt)
+		s = BV(w)
+	}
+	return CV{V: Scalar{tb.App("ghost:"+name, s, ts...)}, T: rt}
+}
+
+func (e *Engine) attrsForTag(tag *Term) (*TypeAttr, types.Type) {
+	if e.attrIndex == nil {
+		e.attrIndex = map[string]*TypeAttr{}
+		e.attrTypes = map[string]types.Type{}
+		for _, ta := range e.specs.TypeAttrs {
+			var from *types.Package
+			if sp := e.ssaPkgs[ta.Pkg]; sp != nil {
+				from = sp.Pkg
+			}
+			t := e.parseTypeName(from, ta.TypeKey)
+			if t == nil {
+				panic(cerr("type attributes for unknown type %q", ta.TypeKey))
+			}
+			k := e.typeTag(t).Val.String()
+			e.attrIndex[k] = ta
+			e.attrTypes[k] = t
+		}
+	}
+	k := tag.Val.String()
+	return e.attrIndex[k], e.attrTypes[k]
 }
